@@ -21,6 +21,7 @@ func UnmarshalJSightSchema(
 ) (schema Schema, err error) {
 	defer func() {
 		if r := recover(); r != nil {
+			verifRecovered(r)
 			if e, ok := r.(error); ok {
 				err = e
 			} else {
